@@ -897,7 +897,8 @@ def random_value(node, rng, cfg, ctx=None, f=None, nonzero=False, maxlen=4):
         return v
     if k == "ptr":
         size, _ = ALL_INTS[cfg.ptr]
-        return rng.choice([0, 1, 2, 8, 16, (1 << (size * 8)) - 1, rng.randint(0, (1 << (size * 8)) - 1)])
+        v = rng.choice([0, 1, 2, 8, 16, (1 << (size * 8)) - 1, rng.randint(0, (1 << (size * 8)) - 1)])
+        return v or 1 if nonzero else v
     if k == "array":
         return random_array(node, rng, cfg, ctx or {}, maxlen)
     if k == "struct":
